@@ -524,7 +524,7 @@ func execC09(s *c09Scenario, c *ev.Ctx) {
 var propC09 = ev.Prop[c09Scenario]{
 	ID: "C09", Test: "TestC09", Level: "fault_enumeration",
 	Rule: "rapid draws a NodeClaim at {unlaunched, launched, registered, initialized} with its Node, 0-4 pods (as C10: drainable / do-not-disrupt / daemon / critical / stuck terminating / tolerating / static, PDBs), VolumeAttachments of some pods, terminationGracePeriod none/30s/10m, instance already gone or needing 1-3 provider deletes, deletion started on the NodeClaim or on the Node, and 6-48 operations from {node-termination reconcile, NodeClaim-lifecycle reconcile, eviction-queue reconcile, kubelet finishes a pod, attach-detach removes a VA, clock +6s/40s/2m/11m, a pod bound to the node during the drain, a progress round (node reconcile + eviction queue + kubelet + clock + NodeClaim reconcile), one controller's reconcile running at the k-th API write of the other's, controller restart (fresh controllers, eviction queue lost), node Ready/NotReady, delete}; a fault-free run counts the controllers' API writes and provider calls and EVERY index is failed once (quick: one drawn kind of 500/conflict/not-found, thorough: all three); " +
-		"oracle (monitors at the instant a finalizer is about to be removed): Node finalizer (node has a NodeClaim) only when cordoned, no drainable non-terminal pod left, no VolumeAttachment of a drainable pod unless past the termination time, instance gone - or the fast path node NotReady and instance already gone; NodeClaim finalizer only when its registered Node is gone and no instance the provider ever created for it exists; a NodeClaim gone from the API has no live instance; " +
+		"oracle (monitors at the instant a finalizer is about to be removed): Node finalizer (node has a NodeClaim) only when cordoned, no drainable non-terminal pod left, no VolumeAttachment of a drainable pod unless past the termination time (computed by the harness as NodeClaim deletionTimestamp + terminationGracePeriod, not read from the annotation Karpenter writes), instance gone - or the fast path node NotReady and instance already gone; NodeClaim finalizer only when its registered Node is gone and no instance the provider ever created for it exists; a NodeClaim gone from the API has no live instance; " +
 		"non-trivial = >=1 drainable pod and >=1 injected fault / restart before completion",
 	Assumptions: []string{"stuck-terminating = deletionTimestamp more than one minute in the past, as documented in the code"},
 	Draw:        drawC09, Exec: execC09, ReplayTries: 3,
